@@ -206,6 +206,9 @@ func (e *Evaluator) eval(node parser.Node) (value, error) {
 		return nil, ErrStopped
 	}
 	e.yield()
+	if e.Stopped { // the platform may raise the flag while it has control
+		return nil, ErrStopped
+	}
 	switch node := node.(type) {
 	case *parser.Program:
 		return e.evalProgram(node)
